@@ -84,7 +84,7 @@ inline void generate(Case& c, Rng& rng, const WLEntry& wl, bool thorough, long m
       ch.depth  = d + 1;
       if (monotone)
         ch.prio = pprio + 1 + (unsigned)rng.below(3);
-      else if (wl.flags & F_BARRIER)
+      else if ((wl.flags & F_BARRIER) && !c.anyPrioChildren)
         ch.prio = pprio + (unsigned)rng.below(levelStep + 1); // equal or lower urgency (ascending order)
       else
         ch.prio = (unsigned)rng.below(prioRange);
